@@ -40,6 +40,9 @@ def agg_nodes(ctx, e, path=()):
 def unknown_tags(cls, rng):
     spec = set(cls.spec)
     cand = ["FOO", "ZZTOP", "STATUS", "CODE", "SEVERITY", "STMTTRN", "BANKACCTFROM", "MEMO", "NAME", "DTPOSTED", "X9"]
+    # names that mean something to Python on the class (methods and properties of Aggregate / list / object): still unknown TAGS
+    pyattrs = [a.upper() for a in dir(cls) if a.isidentifier() and not a.startswith("_") and a.upper().isalnum()]
+    cand += rng.sample(pyattrs, min(6, len(pyattrs)))
     wire = {"MAIL": "FROM", "MFINFO": "YIELD", "STOCKINFO": "YIELD"}
     bad = {wire[b.__name__] for b in cls.__mro__ if b.__name__ in wire}
     # a data element written without end tag directly inside an element of the SAME tag cannot be told from that element's end
@@ -47,7 +50,7 @@ def unknown_tags(cls, rng):
     return [t for t in cand if t.lower() not in spec and t not in bad and t != cls.__name__]
 
 
-def make_insert(kind, tag, rng):
+def make_insert(kind, tag, rng, known_children=()):
     if kind == "data":
         e = ET.Element(tag); e.text = rng.choice(["1", "bar", "20200101", "a b"]); return e
     if kind == "empty":
@@ -58,11 +61,16 @@ def make_insert(kind, tag, rng):
         s = ET.SubElement(e, "SEVERITY"); s.text = "INFO"
         if rng.random() < 0.5:
             ET.SubElement(ET.SubElement(e, "INNER"), "DEEP").text = "x"
+        if known_children:       # otherwise-known content (incl. the tags groom renames) inside an unknown aggregate is never looked at
+            for t in rng.sample(known_children, min(2, len(known_children))):
+                ET.SubElement(e, t).text = "9"
         return e
     if kind == "vendor-data":
         e = ET.Element(rng.choice(["INTU.BID", "INTU.USERID", "X.Y", "CODE.X"])); e.text = "12345"; return e
     e = ET.Element(rng.choice(["INTU.AGG", "FOO.BAR"]))
     ET.SubElement(e, "CODE").text = "7"
+    for t in known_children[:1]:
+        ET.SubElement(e, t).text = "9"
     return e
 
 
@@ -118,7 +126,11 @@ def run(rep, tier, rng):
                 kind = rng.choice(KINDS)
                 if kind == "aggregate":      # same reason: its own children are CODE / SEVERITY / INNER / DEEP
                     tags = [t for t in tags if t not in ("CODE", "SEVERITY", "INNER", "DEEP")]
-                u = make_insert(kind, rng.choice(tags), rng)
+                wire = {"MAIL": "FROM", "MFINFO": "YIELD", "STOCKINFO": "YIELD"}
+                kc = [wire[b.__name__] for b in ncls.__mro__ if b.__name__ in wire] + [k.upper() for k, t in ncls.spec.items() if not isinstance(t, ctx.Types.Unsupported)][:6]
+                kc = [t for t in kc if t not in ("CODE", "SEVERITY", "INNER", "DEEP")]
+                utag = rng.choice(tags)
+                u = make_insert(kind, utag, rng, [t for t in kc if t != utag] if kind in ("aggregate", "vendor-aggregate") else ())
                 dirty = copy.deepcopy(clean)
                 node = dirty
                 for k in path:
